@@ -65,6 +65,22 @@ let check (b : block) : verdict list =
     add (Viol ("stream:no-exit", Printf.sprintf "single worker, lock-step: the process did not terminate after end of input (%d of %d answers printed)" (List.length refs) n))
   else if ref_status <> "exit 0" then
     add (Viol ("stream:crash", "single worker, lock-step: the process ended with status " ^ ref_status));
+  (* the library's own answers (handle_stream_msg on a fresh clone per line) are the primary
+     reference: the binary's single-worker run is judged against them like any other run *)
+  let expects = indexed b "expect" in
+  let have_expect = List.length expects = n && n > 0 in
+  if have_expect then begin
+    bump "runs_judged_against_library_answers";
+    if List.length refs < n && is_prefix refs expects then
+      add (Viol ("stream:lost-answer", Printf.sprintf "single worker, lock-step: %d of %d accepted lines were answered" (List.length refs) n))
+    else if refs <> expects then begin
+      let rec fd i a r = match a, r with x :: a', y :: r' -> if x = y then fd (i + 1) a' r' else i | _ -> i in
+      let i = fd 0 refs expects in
+      add (Viol ("stream:wrong-answer", Printf.sprintf "single worker: output line %d is %S, the library answers %S to input line %d" i
+                   (try List.nth refs i with _ -> "<none>") (try List.nth expects i with _ -> "<none>") i))
+    end
+  end;
+  let refs = if have_expect then expects else refs in
   let ref_ok = List.length refs = n in
   if not ref_ok then
     add (Diff ("ref-incomplete", Printf.sprintf "the single-worker reference run gave %d answers for %d lines" (List.length refs) n))
